@@ -1,6 +1,6 @@
 (* AxiProofs.v — C08 on the model: the AXI bus objects a network interface carries, the top-level ports
    they declare and the element of those ports each interface binds. *)
-From FV Require Import Base AddrRange Graph Desc Build Netlist Compile Routing Emit ModelBase.
+From FV Require Import Base AddrRange Graph Desc Build Netlist Compile Routing Emit ModelBase ParseProofs.
 From Coq Require Import ZifyBool.
 
 Definition bus_ok (e : ep_desc) (role : string) (arr : option (list Z)) (b : bus) : Prop :=
@@ -158,4 +158,13 @@ Proof.
   - rewrite Hn. cbn. symmetry. apply not_true_iff_false. intros H. apply existsb_exists in H. destruct H as (b & Hb & Hk).
     rewrite (Hall b Hb) in Hk. discriminate.
   - rewrite Hb. cbn. symmetry. apply existsb_exists. exists b. split; [apply in_or_app; right; left; reflexivity|exact Hk].
+Qed.
+
+(* ------------------------------------------------------------------ distinct port names (repair 8.17) *)
+Theorem compile_port_names_nodup d g c : compile d g = Ok c -> NoDup (port_base_names d).
+Proof.
+  unfold compile. intros H. inv_bind H.
+  match goal with E : compile_endpoints d g = Ok _ |- _ => unfold compile_endpoints in E;
+    destruct (nodupb str_eqb (port_base_names d)) eqn:N; [|discriminate E] end.
+  apply ParseProofs.nodupb_NoDup. exact N.
 Qed.
